@@ -1,6 +1,8 @@
 (* C14 -- options: model of suds/properties.py (Properties, Definition, Link,
-   Endpoint, Skin), suds/options.py (TpLinker) and the clone path of
-   suds/client.py, plus the map-based executable specification.
+   Endpoint, Skin), suds/options.py (TpLinker), the clone path of
+   suds/client.py with Transport.__deepcopy__ / HttpTransport.__deepcopy__, and
+   of what the transports of suds/transport/http.py, https.py hand to urllib on
+   a send; plus the map-based executable specification.
 
    Everything is parameterised by a record of tables.  The MODEL is run on
    the tables regenerated from /repo (Gen/C14Tables.v), the SPEC on the tables
@@ -8,12 +10,16 @@
    for every table record that passes the boolean check [tables_ok].
 
    Objects.  A client with number c owns the Properties object [NC c] (its
-   options) and the transport objects [NT c 0], [NT c 1], ... (their options).
-   A transport object is used by one client only: giving one transport object
-   to two clients makes Link.validate raise Exception('Duplicate domains') and
-   is outside the operation alphabet of the property.  A value is a pair
-   (class tag, identity); a value whose class is a Transport denotes the
-   transport object [NT c (identity)] of the client whose option it is. *)
+   options).  Transport objects are named [NT a i]: the i-th transport object
+   made for client a (by the test, by Client.__init__, or by clone()).  The
+   name says who the object was made for, not who uses it: a transport object
+   that a client has released can be given to another client.  A value is a
+   pair (class tag, identity); a value whose class is a Transport denotes the
+   transport object [tnode v] = NT (identity / TW) (identity mod TW).
+   Giving a client a transport object that ANOTHER client currently holds
+   makes Link.validate raise Exception('Duplicate domains') after the value
+   was stored: the model follows the code there too, the specification does
+   not cover such histories ([noshare]). *)
 From SV Require Import Lib.Base.
 From SV Require Gen.C14Tables.
 Local Open Scope N_scope.
@@ -57,7 +63,9 @@ Definition gen_tables : tables :=
    34 username 35 password : str.
    Value tags: 0 None 1 bool 2 int 3 float 4 str 5 bytes 6 dict 7 list 8 tuple
    9 object 10 NoCache 11 Cache subclass 12 DocumentStore 13 Security
-   14 ImportDoctor 15 HttpTransport 16 HttpAuthenticated. *)
+   14 ImportDoctor 15 http.HttpTransport 16 https.HttpAuthenticated
+   17 a class derived directly from suds.transport.Transport
+   18 http.HttpAuthenticated. *)
 Definition pinned_tables : tables :=
   mkT
    [(1, [1], (10, 0), false); (2, [2], (12, 0), false); (3, [3], (1, 1), false);
@@ -71,14 +79,20 @@ Definition pinned_tables : tables :=
    [(31, [11], (6, 0), false); (32, [5; 12], (2, 90), false); (33, [11], (6, 0), false);
     (34, [6], (0, 0), false); (35, [6], (0, 0), false)]
    [(1, [3; 5]); (2, [5]); (3, [12]); (4, [6]); (5, []); (6, [11]); (7, [9]); (8, [10]);
-    (9, []); (10, [1]); (11, [1]); (12, [2]); (13, [7]); (14, [8]); (15, [4]); (16, [4])]
+    (9, []); (10, [1]); (11, [1]); (12, [2]); (13, [7]); (14, [8]); (15, [4]); (16, [4]);
+    (17, [4]); (18, [4])]
    4 true.
 
 Definition name_transport : N := 6.
 Definition name_proxy : N := 31.
 Definition name_timeout : N := 32.
 Definition name_headers : N := 33.
+Definition name_username : N := 34.
+Definition name_password : N := 35.
 Definition name_unknown : N := 90.
+
+(* the transport class that sends no credentials: http.HttpTransport *)
+Definition tag_plain_http : N := 15.
 
 (* ------------------------------------------------------------------ *)
 (* small list machinery                                                *)
@@ -107,7 +121,7 @@ Fixpoint find_def (ds : list defn) (name : N) : option defn :=
   | d :: ds' => if N.eqb name (d_name d) then Some d else find_def ds' name
   end.
 
-Inductive node := NC (c : N) | NT (c i : N).
+Inductive node := NC (c : N) | NT (a i : N).
 
 Definition node_eqb (a b : node) : bool :=
   match a, b with
@@ -116,7 +130,14 @@ Definition node_eqb (a b : node) : bool :=
   | _, _ => false
   end.
 
+(* the client an object was made for *)
 Definition owner (n : node) : N := match n with NC c => c | NT c _ => c end.
+Definition tidx (n : node) : N := match n with NC _ => 0 | NT _ i => i end.
+
+(* transport objects per client in the identity of a transport value *)
+Definition TW : N := 8.
+Definition tid (a i : N) : N := a * TW + i.
+Definition tnode (v : val) : node := NT (snd v / TW) (snd v mod TW).
 
 Fixpoint mem (x : node) (l : list node) : bool :=
   match l with [] => false | y :: l' => node_eqb x y || mem x l' end.
@@ -140,6 +161,19 @@ Fixpoint upd {A} (k : node) (v : A) (l : list (node * A)) : list (node * A) :=
   | (k', v') :: l' => if node_eqb k k' then (k, v) :: l' else (k', v') :: upd k v l'
   end.
 
+Definition node_opt_is (o : option node) (t : node) : bool :=
+  match o with Some x => node_eqb x t | None => false end.
+
+(* the first client number below n that satisfies f *)
+Fixpoint find_holder (f : N -> bool) (n : nat) : option N :=
+  match n with
+  | O => None
+  | S n' => match find_holder f n' with
+            | Some c => Some c
+            | None => if f (N.of_nat n') then Some (N.of_nat n') else None
+            end
+  end.
+
 (* ------------------------------------------------------------------ *)
 (* operations and results                                              *)
 (* ------------------------------------------------------------------ *)
@@ -148,7 +182,8 @@ Inductive op :=
 | St (n : node) (name : N) (v : val)   (* <n>.options.name = v / set_options(name=v) / constructor kwarg *)
 | Gt (n : node) (name : N)             (* <n>.options.name *)
 | Sw (n : node) (names : list N)      (* read each of the given option names through <n> *)
-| Us (c : N)                           (* what client c's transport uses when a message is sent *)
+| Us (c : N)                           (* what client c's transport hands to urllib when a message is sent *)
+| Uo (n : node) (tag : N)              (* what transport object n (of class tag) hands to urllib on open() *)
 | Cl (c : N).                          (* client c .clone() *)
 
 Inductive out :=
@@ -167,6 +202,16 @@ Definition out_eqb (a b : out) : bool :=
   | OVal v, OVal w => val_eqb v w
   | OW l, OW m => list_eqb N.eqb l m
   | _, _ => false
+  end.
+
+(* credentials(): both must be set, and the class must send credentials at all *)
+Definition creds_of (tag : N) (u p : out) : list N :=
+  match u, p with
+  | OVal uv, OVal pv =>
+      if negb (N.eqb tag tag_plain_http) && negb (is_none uv) && negb (is_none pv)
+      then [code_out u; code_out p]
+      else [code_out (OVal vnone); code_out (OVal vnone)]
+  | _, _ => [code_out (OVal vnone); code_out (OVal vnone)]
   end.
 
 Section WithTables.
@@ -226,6 +271,9 @@ Definition set_defined (st : state) (n : node) (name : N) (v : val) : state :=
   setp st n (mkP (updN name v (p_def (getp st n))) (p_links (getp st n))).
 
 Definition exists_node (st : state) (n : node) : bool := owner n <? nextc st.
+(* a transport value names a transport object of an existing client *)
+Definition vexists (st : state) (v : val) : bool :=
+  negb (is_transport v) || exists_node st (tnode v).
 
 (* Properties.provider(name, history): depth-first search with a shared
    history list; [None] = the nested call returned None. *)
@@ -316,9 +364,9 @@ Definition pset (st : state) (p : node) (name : N) (v : val) : state * out :=
         let prev := defined st p name in
         let st1 := set_defined st p name v' in
         if d_linker d then
-          let st2 := if is_transport prev then unlink st1 p (NT (owner p) (snd prev)) else st1 in
+          let st2 := if is_transport prev then unlink st1 p (tnode prev) else st1 in
           if is_transport v' then
-            let '(st3, ok) := link st2 p (NT (owner p) (snd v')) in
+            let '(st3, ok) := link st2 p (tnode v') in
             (st3, if ok then OOk else OExc)
           else (st2, OOk)
         else (st1, OOk)
@@ -335,30 +383,38 @@ Definition get (st : state) (n : node) (name : N) : out :=
   pget st (provider st name n) name.
 
 (* Client.clone(): a new Options(), then update() from a deep copy of the
-   original's values; the transport value is copied by
-   HttpTransport.__deepcopy__ (a new transport of the same class whose options
-   are updated from the original transport's values). *)
+   original's values; the transport value is copied by Transport.__deepcopy__
+   (HttpTransport.__deepcopy__ for the HTTP transports): a new transport object
+   of the same class whose own, unlinked options are updated from the original
+   transport's values.  The new object is [NT k i] for the clone k. *)
 Definition clone (st : state) (c : N) : state :=
   let k := nextc st in
   let tv := defined st (NC c) name_transport in
-  let st1 := setp st (NC k)
-               (mkP (p_def (getp st (NC c)))
-                    (if is_transport tv then [NT k (snd tv)] else [])) in
-  let st2 := if is_transport tv
-             then setp st1 (NT k (snd tv)) (mkP (p_def (getp st (NT c (snd tv)))) [NC k])
-             else st1 in
+  let st2 :=
+    if is_transport tv then
+      let t := tnode tv in
+      let t' := NT k (tidx t) in
+      let st1 := setp st (NC k)
+                   (mkP (updN name_transport (fst tv, tid k (tidx t)) (p_def (getp st (NC c)))) [t']) in
+      setp st1 t' (mkP (p_def (getp st t)) [NC k])
+    else setp st (NC k) (mkP (p_def (getp st (NC c))) []) in
   mkS (nodes st2) (k + 1).
 
-(* what a send uses: the transport object stored in the client's options
-   reads its own options.timeout / options.proxy, the client reads
-   self.options.headers *)
+(* what a transport object hands to urllib (HttpTransport.open/send, u2open,
+   u2opener, u2handlers; HttpAuthenticated.addcredentials): its own
+   options.timeout, a ProxyHandler for its own options.proxy, and the
+   credentials its own options give *)
+Definition tuse (st : state) (t : node) (tag : N) : list N :=
+  [code_out (get st t name_timeout); code_out (get st t name_proxy)]
+  ++ creds_of tag (get st t name_username) (get st t name_password).
+
+(* a send through client c: the transport object stored in the client's
+   options; the client adds self.options.headers to the request *)
 Definition use (st : state) (c : N) : out :=
   match get st (NC c) name_transport with
   | OVal tv =>
       if is_transport tv then
-        OW [code_out (get st (NT c (snd tv)) name_timeout);
-            code_out (get st (NT c (snd tv)) name_proxy);
-            code_out (get st (NC c) name_headers)]
+        OW (code_out (get st (NC c) name_headers) :: tuse st (tnode tv) (fst tv))
       else OAttrErr
   | o => o
   end.
@@ -366,7 +422,8 @@ Definition use (st : state) (c : N) : out :=
 Definition step (st : state) (o : op) : state * out :=
   match o with
   | St n name v =>
-      if exists_node st n then pset st (provider st name n) name v else (st, ONoClient)
+      if exists_node st n && vexists st v then pset st (provider st name n) name v
+      else (st, ONoClient)
   | Gt n name =>
       (st, if exists_node st n then get st n name else ONoClient)
   | Sw n names =>
@@ -374,6 +431,8 @@ Definition step (st : state) (o : op) : state * out :=
            else ONoClient)
   | Us c =>
       (st, if c <? nextc st then use st c else ONoClient)
+  | Uo n tag =>
+      (st, if exists_node st n then OW (tuse st n tag) else ONoClient)
   | Cl c =>
       if c <? nextc st then (clone st c, OOk) else (st, ONoClient)
   end.
@@ -421,20 +480,24 @@ Fixpoint del_name (name : N) (l : list (N * val)) : list (N * val) :=
   end.
 
 (* the transport object a client currently has *)
-Definition s_cur (ss : sstate) (c : N) : option N :=
+Definition s_cur (ss : sstate) (c : N) : option node :=
   let v := sval ss (NC c) name_transport in
-  if is_transport v then Some (snd v) else None.
+  if is_transport v then Some (tnode v) else None.
+
+(* the client that currently has transport object t *)
+Definition s_holder (ss : sstate) (t : node) : option N :=
+  find_holder (fun c => node_opt_is (s_cur ss c) t) (N.to_nat (s_next ss)).
 
 (* which map an option name read or written through <n> belongs to *)
 Definition resolve (ss : sstate) (n : node) (name : N) : option node :=
   if has_def n name then Some n
   else match n with
        | NC c => match s_cur ss c with
-                 | Some i => if has_def (NT c i) name then Some (NT c i) else None
+                 | Some t => if has_def t name then Some t else None
                  | None => None
                  end
-       | NT c i => match s_cur ss c with
-                   | Some j => if N.eqb i j && has_def (NC c) name then Some (NC c) else None
+       | NT _ _ => match s_holder ss n with
+                   | Some c => if has_def (NC c) name then Some (NC c) else None
                    | None => None
                    end
        end.
@@ -459,17 +522,20 @@ Definition sset (follow : bool) (ss : sstate) (n : node) (name : N) (v : val) : 
           if negb (validate d v) then (ss, OAttrErr)
           else
             let v' := nvl d v in
-            let old := s_cur ss (owner m) in
             let ss1 := sput ss m name v' in
             let ss2 :=
               if negb follow then ss1 else
               match m, n with
-              | NT c _, NC _ => set_carry ss1 c (updN name v' (carry_of ss1 c))
-              | NT c _, NT _ _ => set_carry ss1 c (del_name name (carry_of ss1 c))
+              | NT _ _, NC c => set_carry ss1 c (updN name v' (carry_of ss1 c))
+              | NT _ _, NT _ _ =>
+                  match s_holder ss m with
+                  | Some c => set_carry ss1 c (del_name name (carry_of ss1 c))
+                  | None => ss1
+                  end
               | NC c, _ =>
                   if N.eqb name name_transport && is_transport v'
-                     && negb (opt_eqb N.eqb old (Some (snd v')))
-                  then fold_left (fun s kv => sput s (NT c (snd v')) (fst kv) (snd kv))
+                     && negb (node_opt_is (s_cur ss c) (tnode v'))
+                  then fold_left (fun s kv => sput s (tnode v') (fst kv) (snd kv))
                                  (carry_of ss1 c) ss1
                   else ss1
               end in
@@ -482,25 +548,32 @@ Definition sclone (ss : sstate) (c : N) : sstate :=
   let ss1 := fold_left (fun s d => sput s (NC k) (d_name d) (sval ss (NC c) (d_name d)))
                        (cdefs T) ss in
   let ss2 := match s_cur ss c with
-             | Some i => fold_left (fun s d => sput s (NT k i) (d_name d) (sval ss (NT c i) (d_name d)))
-                                   (tdefs T) ss1
+             | Some t =>
+                 sput (fold_left (fun s d => sput s (NT k (tidx t)) (d_name d) (sval ss t (d_name d)))
+                                 (tdefs T) ss1)
+                      (NC k) name_transport
+                      (fst (sval ss (NC c) name_transport), tid k (tidx t))
              | None => ss1
              end in
   mkSS (s_vals ss2) (k + 1) (updN k (carry_of ss c) (s_carry ss2)).
 
+Definition stuse (ss : sstate) (t : node) (tag : N) : list N :=
+  [code_out (sget ss t name_timeout); code_out (sget ss t name_proxy)]
+  ++ creds_of tag (sget ss t name_username) (sget ss t name_password).
+
 Definition suse (ss : sstate) (c : N) : out :=
-  match s_cur ss c with
-  | Some i =>
-      OW [code_out (sget ss (NT c i) name_timeout);
-          code_out (sget ss (NT c i) name_proxy);
-          code_out (sget ss (NC c) name_headers)]
-  | None => OAttrErr
-  end.
+  let tv := sval ss (NC c) name_transport in
+  if is_transport tv then
+    OW (code_out (sget ss (NC c) name_headers) :: stuse ss (tnode tv) (fst tv))
+  else OAttrErr.
+
+Definition svexists (ss : sstate) (v : val) : bool :=
+  negb (is_transport v) || (owner (tnode v) <? s_next ss).
 
 Definition sstep (follow : bool) (ss : sstate) (o : op) : sstate * out :=
   match o with
   | St n name v =>
-      if owner n <? s_next ss then sset follow ss n name v else (ss, ONoClient)
+      if (owner n <? s_next ss) && svexists ss v then sset follow ss n name v else (ss, ONoClient)
   | Gt n name =>
       (ss, if owner n <? s_next ss then sget ss n name else ONoClient)
   | Sw n names =>
@@ -508,6 +581,8 @@ Definition sstep (follow : bool) (ss : sstate) (o : op) : sstate * out :=
            else ONoClient)
   | Us c =>
       (ss, if c <? s_next ss then suse ss c else ONoClient)
+  | Uo n tag =>
+      (ss, if owner n <? s_next ss then OW (stuse ss n tag) else ONoClient)
   | Cl c =>
       if c <? s_next ss then (sclone ss c, OOk) else (ss, ONoClient)
   end.
@@ -523,13 +598,43 @@ Fixpoint srun (follow : bool) (ss : sstate) (ops : list op) : sstate * list out 
 Definition svirgin : sstate := mkSS [] 1 [].
 Definition sinit : sstate := fst (sstep false svirgin (St (NC 0) name_transport (16, 0))).
 
+(* the operation gives a client a transport object that ANOTHER client
+   currently has (outside the property: one transport object, one client) *)
+Definition shares (ss : sstate) (o : op) : bool :=
+  match o with
+  | St n name v =>
+      N.eqb name name_transport && is_transport v &&
+      match resolve ss n name with
+      | Some (NC c) => match s_holder ss (tnode v) with
+                       | Some c' => negb (N.eqb c c')
+                       | None => false
+                       end
+      | _ => false
+      end
+  | _ => false
+  end.
+
+Fixpoint noshare_from (ss : sstate) (ops : list op) : bool :=
+  match ops with
+  | [] => true
+  | o :: ops' => negb (shares ss o) && noshare_from (fst (sstep false ss o)) ops'
+  end.
+Definition noshare (ops : list op) : bool := noshare_from sinit ops.
+
 (* histories in which no client replaces its transport after a transport
-   option was assigned through it (the guard of follow_partial) *)
+   option was assigned through it (the guard of follow_partial); an
+   assignment of the transport option through a transport object's own
+   options counts for every client *)
 Fixpoint follow_guard_from (dirty : list N) (next : N) (ops : list op) : bool :=
   match ops with
   | [] => true
   | St n name v :: ops' =>
-      if N.eqb name name_transport && memN (owner n) dirty then false
+      if N.eqb name name_transport &&
+         match n with
+         | NC c => memN c dirty
+         | NT _ _ => match dirty with [] => false | _ => true end
+         end
+      then false
       else follow_guard_from
              (match n with
               | NC c => if has_def (NT c 0) name then c :: dirty else dirty
@@ -553,16 +658,22 @@ Definition hcase := list (op * out).
 
 Definition outs_eqb (a b : list out) : bool := list_eqb out_eqb a b.
 
+(* no operation of the history hands a client a transport object another
+   client holds *)
+Definition c14_inscope (h : hcase) : bool := noshare pinned_tables (map fst h).
+
 (* the model, on the tables regenerated from /repo, predicts every result *)
 Definition c14_agrees (h : hcase) : bool :=
   outs_eqb (snd (run gen_tables (init gen_tables) (map fst h))) (map snd h).
 
 (* the full property text (transport options follow the client) *)
 Definition c14_spec_ok (h : hcase) : bool :=
+  negb (c14_inscope h) ||
   outs_eqb (snd (srun pinned_tables true (sinit pinned_tables) (map fst h))) (map snd h).
 
 (* the property text without the "follow" clause *)
 Definition c14_spec_nofollow_ok (h : hcase) : bool :=
+  negb (c14_inscope h) ||
   outs_eqb (snd (srun pinned_tables false (sinit pinned_tables) (map fst h))) (map snd h).
 
 Definition c14_guard (h : hcase) : bool := follow_guard pinned_tables (map fst h).
